@@ -39,12 +39,12 @@ far minus the allowed delay, not below zero (so in particular after each on-time
 theorem bounded_watermark_eq (d : Nat) (l : LateStrategy) (es : List Ev) :
     (run (.bounded d) l es).wm = maxList (es.map (·.ts)) - d := by
   have h := run_inv (.bounded d) l es
-  rw [h.wm, h.maxTs]; rfl
+  rw [h.wm (by simp), h.maxTs]; rfl
 
 theorem monotonic_watermark_eq (l : LateStrategy) (es : List Ev) :
     (run .monotonic l es).wm = maxList (es.map (·.ts)) := by
   have h := run_inv .monotonic l es
-  rw [h.wm, h.maxTs]; rfl
+  rw [h.wm (by simp), h.maxTs]; rfl
 
 /-- An event is treated as late exactly when its timestamp is below the current watermark, and
 its fate is the one the configured strategy prescribes — it ends up in exactly one place. -/
@@ -91,13 +91,57 @@ theorem history_strictly_increasing (w : WmStrategy) (l : LateStrategy) (es : Li
   have h := run_inv w l es
   exact ⟨h.hist_inc, h.hist_le, h.hist_last⟩
 
+/-- `Periodic`, for EVERY sequence of clock readings (the clock may stand still, jump or run
+backwards): the watermark never exceeds the largest timestamp offered, and an on-time event
+either leaves it unchanged or — exactly when the clock reading is at least `interval` past the
+last emission — moves it to the largest timestamp offered so far. (Monotonicity, lateness,
+fates, history and conservation are the general theorems above: they hold for `Periodic` too.) -/
+theorem periodic_watermark_le_max (iv : Nat) (l : LateStrategy) (es : List Ev) :
+    (run (.periodic iv) l es).wm ≤ maxList (es.map (·.ts)) := by
+  have h := run_inv (.periodic iv) l es
+  rw [← h.maxTs]; exact h.wm_le
+
+theorem periodic_step (iv : Nat) (l : LateStrategy) (es : List Ev) (e : Ev)
+    (hon : ¬ e.ts < (run (.periodic iv) l es).wm) :
+    (if (run (.periodic iv) l es).lastEm ≤ e.now ∧ iv ≤ e.now - (run (.periodic iv) l es).lastEm
+      then (run (.periodic iv) l (es ++ [e])).wm = maxList ((es ++ [e]).map (·.ts)) ∧
+           (run (.periodic iv) l (es ++ [e])).lastEm = e.now
+      else (run (.periodic iv) l (es ++ [e])).wm = (run (.periodic iv) l es).wm ∧
+           (run (.periodic iv) l (es ++ [e])).lastEm = (run (.periodic iv) l es).lastEm) := by
+  have h := run_inv (.periodic iv) l es
+  have hrun : run (.periodic iv) l (es ++ [e]) = step (.periodic iv) l (run (.periodic iv) l es) e := by
+    simp [run, List.foldl_append]
+  have hle := h.wm_le
+  have hmax : maxList ((es ++ [e]).map (·.ts)) =
+      (if e.ts > (run (.periodic iv) l es).maxTs then e.ts else (run (.periodic iv) l es).maxTs) := by
+    rw [List.map_append, List.map_cons, List.map_nil, maxList_append, ← h.maxTs]; split <;> omega
+  rw [hrun, hmax, step, if_neg hon]
+  generalize run (.periodic iv) l es = s at hon hle
+  by_cases hf : s.lastEm ≤ e.now ∧ iv ≤ e.now - s.lastEm
+  · rw [if_pos hf]
+    have hF : periodicFires (.periodic iv) s.lastEm e.now = true := by simp [periodicFires, hf.1, hf.2]
+    simp only [handleOnTime, hF, newWm, candidate, if_true]
+    refine ⟨?_, trivial⟩
+    split <;> split <;> omega
+  · rw [if_neg hf]
+    have hF : periodicFires (.periodic iv) s.lastEm e.now = false := by
+      cases hp : periodicFires (.periodic iv) s.lastEm e.now with
+      | false => rfl
+      | true =>
+        simp only [periodicFires, Bool.and_eq_true, decide_eq_true_eq] at hp
+        exact absurd hp hf
+    simp [handleOnTime, hF, newWm, candidate]
+
 /-! Non-vacuity: a concrete run in which events are late, dropped, allowed and side-output. -/
-def exEvents : List Ev := [⟨0, 10⟩, ⟨1, 30⟩, ⟨2, 5⟩, ⟨3, 24⟩, ⟨4, 50⟩, ⟨5, 44⟩]
+def exEvents : List Ev := [⟨0, 10, 0⟩, ⟨1, 30, 3⟩, ⟨2, 5, 3⟩, ⟨3, 24, 9⟩, ⟨4, 50, 2⟩, ⟨5, 44, 20⟩]
 
 example : (run (.bounded 5) (.allowed 3) exEvents).obs =
     { wm := 45, history := [5, 25, 45], events := [0, 1, 3, 4, 5], side := [],
       late := 3, dropped := 1, allowed := 2, sideCount := 0 } := by decide
 example : (run (.bounded 5) .sideOutput exEvents).obs.side = [2, 3, 5] := by decide
 example : (run .monotonic .drop exEvents).obs.dropped = 3 := by decide
+-- Periodic, interval 5, clock 0,3,3,9,2,20: emissions at readings 9 and 20 only (the backwards reading 2 emits nothing)
+example : (run (.periodic 5) .drop exEvents).obs.history = [30, 50] ∧ (run (.periodic 5) .drop exEvents).lastEm = 20 ∧
+    (run (.periodic 5) .drop (exEvents ++ [⟨6, 7, 21⟩])).obs.dropped = 1 := by decide
 
 end C13
